@@ -9,11 +9,11 @@ namespace vf {
 
 enum class MKind : uint8_t {
   Identity, Truncate, ByteSub, IntClass, FieldValue, PrefixSwap, EntryDup, EntryDrop, EntrySwap, Trailing,
-  EntryShrink, EntryGrowPadded, EntryGrowUnpadded, HashChange, ShortString
+  EntryShrink, EntryGrowPadded, EntryGrowUnpadded, HashChange, ShortString, PayloadFill
 };
 inline const char* mkind_name(MKind k) {
   static const char* n[] = {"identity", "truncate", "bytesub", "intclass", "fieldvalue", "prefixswap", "entrydup", "entrydrop",
-                            "entryswap", "trailing", "entryshrink", "entrygrow+pad", "entrygrow-nopad", "hashchange", "short"};
+                            "entryswap", "trailing", "entryshrink", "entrygrow+pad", "entrygrow-nopad", "hashchange", "short", "payloadfill"};
   return n[(int)k];
 }
 struct Mut {
@@ -145,6 +145,17 @@ inline void mutations(const Sch& s, const Val& v, const MutCfg& cfg, const std::
                                f.role == Role::HandleType || f.role == Role::TableHash || f.role == Role::ByteLength ||
                                f.role == Role::LBLength);
       m.max_declared = is_length_like(f.role) ? std::max(base_declared, nv) : base_declared;
+      emit(m);
+    }
+  }
+  // M9 every raw payload of two or more bytes filled with one value (several elements invalid at once: a byte
+  // substitution only ever makes one element of a bool array invalid)
+  for (auto& f : e.fields) {
+    if (f.role != Role::Payload || f.len < 2) continue;
+    for (uint8_t x : {0x02, 0x80, 0xff}) {
+      Mut m; m.kind = MKind::PayloadFill; m.pos = f.off; m.arg = x; m.bytes = b;
+      for (size_t i = 0; i < f.len; i++) m.bytes[f.off + i] = x;
+      if (m.bytes == b) continue;
       emit(m);
     }
   }
